@@ -238,7 +238,7 @@ def main():
         if daemon_replay:
             dcases = daemon_replay
         elif not replay_path:
-            dcases = corelib.daemon_cases(seed, 24 if not thorough else 240, first_id=len(cases))
+            dcases = corelib.daemon_cases(seed, 24 if not thorough else 240, first_id=len(cases), store_ops=thorough)
         if dcases:
             _t2 = time.time()
             corelib.daemon_run(rep, binary, wd, dcases, PROP)
@@ -281,6 +281,13 @@ def main():
                             tops.append(m.group(1) if m else None)
                         if None in tops or len(tops) < 2:
                             continue    # a race inside the harness or the runtime, not in litestream
+                        # one side is the recorder sampling litestream's state (unsynchronised accessors the daemon never calls
+                        # concurrently with itself): a race of the harness, not of a daemon operation
+                        if any(t in ("(*DB).SQLDB", "(*DB).VerifHasReadLock", "(*DB).VerifSyncState", "(*DB).VerifLocksFree") for t in tops) or \
+                           any(re.search(r"verifharness/core\.\(\*Runner\)\.(lifecycleFlags|daemonObserve|observe)", part.split("Goroutine")[0]) for part in parts[:2]):
+                            rep.cov.setdefault("harness_races_ignored", 0)
+                            rep.cov["harness_races_ignored"] += 1
+                            continue
                         sig = "race:" + "|".join(sorted(tops))
                         sigs.setdefault(sig, (c, blk))
             rep.cov["race_detector"] = {"replays": len(sub), "distinct_races_in_litestream": sorted(sigs)}
